@@ -370,6 +370,11 @@ func (e *Engine) verifyCase(fn *ssa.Function, con *Contract, choice []splitChoic
 		}
 		return base(s)
 	}
+	{
+		// vacuity guard: a normal exit must be reachable under all hypotheses collected on the way
+		o := vc.Oblige("vacuity", "vacuity.exit", True, Not(reach), x.pos(fn.Pos()), "some normal exit is reachable under the accumulated hypotheses (expected: sat)")
+		o.Result, o.Solver, o.Folded = "", "", false
+	}
 	for i, en := range con.Ensures {
 		t := post.evalBool(en.E)
 		vc.Oblige("post", fmt.Sprintf("post.%d", i), reach, t, x.pos(fn.Pos()), en.Text)
